@@ -123,6 +123,7 @@ impl Ck<'_> {
                     ("container", format!("{:?}", self.c)),
                     ("context", format!("{:?}", self.ctx)),
                     ("version_is_current", (self.ver == self.e.ty.max_version()).to_string()),
+                ("failure_kind", if msg.contains("recursion marker") { "spurious_recursion".to_string() } else { "other".to_string() }),
                 ]),
                 summary: format!(
                     "{} {} v{} {:?}/{:?}: {}",
